@@ -260,6 +260,9 @@ func decodeBuffer(r io.Reader, byteReader io.ByteReader, buf []byte, forCompare 
 						io.LimitReader(r, int64(l)),
 						buf,
 					); err != nil || n != int64(l) {
+						if err == nil {
+							err = io.ErrUnexpectedEOF
+						}
 						return nil, we.With(e5.With(DecodeError), e5.With(Offset(offset)))(err)
 					} else {
 						offset += int64(length)
@@ -282,6 +285,9 @@ func decodeBuffer(r io.Reader, byteReader io.ByteReader, buf []byte, forCompare 
 				io.LimitReader(r, int64(length)),
 				buf,
 			); err != nil || n != int64(length) {
+				if err == nil {
+					err = io.ErrUnexpectedEOF
+				}
 				return nil, we.With(e5.With(DecodeError), e5.With(Offset(offset)))(err)
 			} else {
 				offset += int64(length)
@@ -351,6 +357,9 @@ func decodeBuffer(r io.Reader, byteReader io.ByteReader, buf []byte, forCompare 
 						io.LimitReader(r, int64(l)),
 						buf,
 					); err != nil || n != int64(l) {
+						if err == nil {
+							err = io.ErrUnexpectedEOF
+						}
 						return nil, we.With(e5.With(DecodeError), e5.With(Offset(offset)))(err)
 					} else {
 						offset += int64(length)
